@@ -338,7 +338,7 @@ seq_t dtw_warping_paths{{ suffix }}{{ suffix2 }}(seq_t *wps,
     // D. Rows: MAX(overlap_left_ri, overlap_right_ri) < ri <= l1
     // [x 0 0 0 0]
     // [x x 0 0 0]
-    min_ci = MAX(0, p.ri3 + 1 - p.window - p.ldiff );
+    min_ci = MAX(0, p.ri3 + 1 - p.window - p.ldiffr );
     wpsi_start = 2;
     if (p.ri2 == p.ri3) {
         // C is skipped
